@@ -129,6 +129,7 @@ fn targeted(seed: u64, run: u64) -> Trace {
                     }],
                 },
             ],
+            fixed: None,
         },
         plain488: false,
     };
@@ -206,6 +207,12 @@ pub fn hostile_msg(rng: &mut Rng, tc: &TreeCtx, uniq: &mut u32) -> Msg {
             let n = *rng.pick(&[13usize, 100, 255, 256, 300]);
             let k = rng.usize_below(path.len());
             path[k] = "M".repeat(n);
+        } else if rng.chance(1, 30) {
+            // numeric header suffix far beyond anything defined
+            let k = rng.usize_below(path.len());
+            let (alpha, _) = crate::tree::split_suffix(&path[k]);
+            let digits = *rng.pick(&["256", "65535", "65536", "70000", "4294967296", "99999999", "18446744073709551616"]);
+            path[k] = format!("{}{}", alpha, digits);
         }
         let np = rng.usize_below(7);
         let params: Vec<Elem> = (0..np).map(|_| c01_elem(rng, uniq)).collect();
